@@ -7,10 +7,10 @@ from qce_circuit.addon_stim.circuit_operations import DetectorOperation, Logical
 from qce_circuit.structure import circuit_operations as co
 from mc import world, triage
 from mc.engine import Family, Res
-from mc.interp import build, count_events
+from mc.interp import build, count_events, make_op, rep_count
 from mc.props.c05 import AllClassSpace
 from mc.ref.schedule import canonical_state
-from mc.ref.stim_tr import translate_block, expand
+from mc.ref.stim_tr import translate_block, translate_leaf, expand
 from mc.spaces import NestedSpace2, TwoLevelSpace, Space
 
 PROP = 'C08'
@@ -30,6 +30,40 @@ def judge(res, prog, c, label):
         res.fail('C08-translation', '%s %r: instruction #%d: expected %r, exported %r (lengths %d / %d)' % (
             label, prog, k, want[k] if k < len(want) else None, got[k] if k < len(got) else None, len(want), len(got)))
     return got
+
+
+ANNOTATIONS = ('DETECTOR', 'OBSERVABLE_INCLUDE')
+
+
+def program_instructions(prog, circ=None):
+    """What the *program* says must be exported (order aside): every added leaf translated on its own, as often as its
+    blocks are repeated.  Independent of the circuit's listing, so an operation that changes kind, qubits or count on its
+    way into a block (copies) shows up.  Annotations are left out (their record targets depend on their position)."""
+    circ = circ or DeclarativeCircuit()
+    out = []
+    for e in prog:
+        if e[0] == 'op':
+            out.extend(i for i in translate_leaf(make_op(e[1], e[2], None, circ, e[4] if len(e) > 4 else '')) if i[0] not in ANNOTATIONS)
+        else:
+            out.extend(program_instructions(e[2], circ) * rep_count(e[1]))
+    return out
+
+
+class AllClassNestedSpace(Space):
+    """AN: one block (count 1 or 2) holding one operation of every class (every field non-default), alone or behind Rx180(0)."""
+    name = 'AN'
+
+    def __init__(self):
+        super().__init__(1)
+        atoms = AllClassSpace(1).atoms
+        self._s = []
+        for k, q in atoms:
+            for r in (1, 2):
+                self._s.append(('sub', r, (('op', k, q, None),)))
+                self._s.append(('sub', r, (('op', 'X', 0, None), ('op', k, q, None))))
+
+    def steps(self, i):
+        return self._s
 
 
 class ExportFamily(Family):
@@ -57,6 +91,11 @@ class ExportFamily(Family):
             got2 = judge(res, prog, un, 'unrolled')
             if Counter(got) != Counter(got2):
                 res.fail('C08-unroll-multiset', 'program %r: exporting before and after unrolling gives different instruction multisets' % (prog,))
+            want_ms = Counter(program_instructions(prog))
+            got_ms = Counter(g for g in got2 if g[0] not in ANNOTATIONS)
+            if want_ms != got_ms:
+                res.fail('C08-program-multiset', 'program %r: the export of the unrolled circuit is not what the added operations translate to: missing %r, unexpected %r' % (
+                    prog, sorted((want_ms - got_ms).items())[:3], sorted((got_ms - want_ms).items())[:3]))
             if sum(1 for g in got if g[0] == 'M') != sum(1 for g in got2 if g[0] == 'M'):
                 res.fail('C08-unroll-measurements', 'program %r: number of measurements changes by unrolling' % (prog,))
             res.outcome = tuple(got)
@@ -190,8 +229,8 @@ class LibraryFamily(Family):
 
 def families(tier):
     if tier == 'quick':
-        return [ExportFamily(AllClassSpace(2)), ExportFamily(NestedSpace2(2)), ExportFamily(TwoLevelSpace(1)), AnnotationFamily(), LibraryFamily()]
-    return [ExportFamily(AllClassSpace(2)), ExportFamily(AllClassSpace(3, ('Rx90', 'Rxm90', 'Hadamard', 'CPhase', 'Barrier', 'DispersiveMeasure', 'VirtualPark', 'DetectorOperation'))),
+        return [ExportFamily(AllClassSpace(2)), ExportFamily(AllClassNestedSpace()), ExportFamily(NestedSpace2(2)), ExportFamily(TwoLevelSpace(1)), AnnotationFamily(), LibraryFamily()]
+    return [ExportFamily(AllClassSpace(2)), ExportFamily(AllClassNestedSpace()), ExportFamily(AllClassSpace(3, ('Rx90', 'Rxm90', 'Hadamard', 'CPhase', 'Barrier', 'DispersiveMeasure', 'VirtualPark', 'DetectorOperation'))),
             ExportFamily(NestedSpace2(2)), ExportFamily(TwoLevelSpace(2)), AnnotationFamily(), LibraryFamily()]
 
 
